@@ -827,9 +827,18 @@ pub async fn process_multiple_changes(
                 let known = if change.is_complete() && change.is_empty() {
                     let versions = change.versions();
                     let end = *versions.end();
+                    // a cleared version may have been partially buffered before
+                    let had_buffered_meta =
+                        check_buffered_meta_to_clear(&tx, change.actor_id, versions.clone())
+                            .map_err(|e| ChangeError::Rusqlite {
+                                source: e,
+                                actor_id: Some(change.actor_id),
+                                version: Some(end),
+                            })?;
                     // update db_version in db if it's greater than the max
                     // since we aren't passing any changes to crsql
-                    if Some(end) > max {
+                    // (the max may only be known through the partial records we are about to clear)
+                    if Some(end) > max || had_buffered_meta {
                         process_empty_version(&tx, change.actor_id, &end).map_err(|e| {
                             ChangeError::Rusqlite {
                                 source: e,
@@ -837,6 +846,13 @@ pub async fn process_multiple_changes(
                                 version: Some(end),
                             }
                         })?;
+                    }
+                    if had_buffered_meta
+                        && let Err(e) = agent
+                            .tx_clear_buf()
+                            .try_send((change.actor_id, versions.clone()))
+                    {
+                        error!("could not schedule buffered meta clear: {e}");
                     }
                     KnownDbVersion::Cleared
                 } else {
@@ -1004,6 +1020,10 @@ pub async fn process_multiple_changes(
 
             for (versions, partial) in processed {
                 let version = *versions.start();
+                if partial.is_none() {
+                    // fully known now, whatever was partially received before is obsolete
+                    booked_write.remove_partials(&versions);
+                }
                 if let Some(partial) = partial {
                     let PartialVersion { seqs, last_seq, .. } =
                         booked_write.insert_partial(version, partial);
